@@ -196,6 +196,24 @@ func execChannel(t *trace, script []string) {
 			if failed.Load() {
 				r = "get-failed " + fmtInts(a)
 			}
+		case "getflip":
+			// Get with a context that is cancelled right after the up-front check saw it live: the Get may return a value or the
+			// context's error, but a Get that fails must not have taken anything (from the source or from the replay buffer)
+			if pendCh != nil {
+				break
+			}
+			ch := make(chan res, 1)
+			go func() { v, err := c.Get(newFlipCtx()); ch <- res{v, err} }()
+			select {
+			case out := <-ch:
+				if out.err == nil {
+					line, r = fmt.Sprintf("getflipres val %d", out.v.(int)), "ok"
+				} else {
+					line, r = "getflipres err", "ok"
+				}
+			case <-time.After(stepTimeout):
+				r = "timeout"
+			}
 		case "commit":
 			r = canonErr(c.Commit())
 		case "rollback":
@@ -253,6 +271,25 @@ func genChannel(r *rng.R, tier string, i int) []string {
 	n := 30 + r.Intn(40)
 	var s []string
 	next := 1
+	if i%10 == 7 {
+		// many uncommitted values (hundreds: the buffer's backing array grows and shrinks), rollback, partial re-read, commit,
+		// then the rest is replayed
+		m := 130 + r.Intn(320)
+		for k := 0; k < m; k++ {
+			s = append(s, fmt.Sprintf("send %d", next), "get")
+			next++
+		}
+		s = append(s, "rollback")
+		for k := m - 1 - r.Intn(12); k > 0; k-- {
+			s = append(s, "get")
+		}
+		s = append(s, "commit", "buffer")
+		for k := 0; k < 14; k++ {
+			s = append(s, "get")
+		}
+		s = append(s, "commit", "buffer")
+		return s
+	}
 	for len(s) < n {
 		if r.Intn(25) == 0 {
 			s = append(s, fmt.Sprintf("pget %d", 8+r.Intn(24)))
@@ -269,7 +306,11 @@ func genChannel(r *rng.R, tier string, i int) []string {
 			s = append(s, fmt.Sprintf("send %d", next))
 			next++
 		case 1:
-			s = append(s, "get")
+			if r.Chance(10) {
+				s = append(s, "getflip", "buffer")
+			} else {
+				s = append(s, "get")
+			}
 		case 2:
 			s = append(s, "commit")
 		case 3:
